@@ -2,7 +2,7 @@
 // traces for validation by TLC against spec/FmmTrace.tla.
 // usage: record_fmm <height> <seed> <nbSessions> <maxParticles> <mode 0 single | 1 target/source> [<events>]   (dimension / periodicity fixed at build time)
 //   events (bit mask): 1 Tree (group structure after construction and after every rebuild), 2 Find (look-ups), 4 histories (staged executes,
-//   in-place moves + rebuild + second pass).  Default 0: one full execute per session, kernel calls only.
+//   in-place moves + rebuild + second pass), 8 dense trees (every leaf occupied).  Default 0: one full execute per session, kernel calls only.
 // A session:  Init  [Tree..] [Find..]  kernel calls of execute(...)  [Rebuild [Tree..] [Find..] kernel calls]  End
 // Sessions alternate between the sequential executor and the OpenMP executor under the mock runtime with a seeded random schedule.
 #include "mockomp.hpp"
@@ -61,6 +61,18 @@ int main(int argc, char** argv){
             for(long i = 0; i < n; ++i){ for(long d = 0; d < Dim; ++d){ c[d] = (long)(rng() % (unsigned long)side); if(i > 0 && rng() % 3 == 0){ c[d] = mortonCoord<Dim>(parts[i-1], H - 1)[d] + (long)(rng() % 3) - 1; if(c[d] < 0) c[d] = 0; if(c[d] >= side) c[d] = side - 1; } }
                 parts[i] = mortonIndex<Dim>(c, H - 1); } return parts; };
         s.sparts = gen(1 + (long)(rng() % (unsigned long)maxN)); s.tparts = s.mode ? gen(1 + (long)(rng() % (unsigned long)maxN)) : s.sparts;
+        if(events & 8){       // dense: every leaf occupied (full interaction lists, full sibling sets, groups cut anywhere), block sizes up to 40;
+                              // large trees: a fully occupied 6^Dim block at an even offset (its central cells own the maximal interaction list), any block size
+            const long nl = 1L << ((H - 1) * Dim); s.sparts.clear();
+            if(nl <= 300){ for(long m = 0; m < nl; ++m) s.sparts.push_back(m); s.bs = 1 + (long)(rng() % 40); }
+            else { std::array<long,Dim> a; for(long d = 0; d < Dim; ++d) a[d] = 2 * (long)(rng() % (unsigned long)((side - 6) / 2 + 1));
+                   long tot = 1; for(long d = 0; d < Dim; ++d) tot *= 6;
+                   for(long k = 0; k < tot; ++k){ std::array<long,Dim> c; long r = k; for(long d = 0; d < Dim; ++d){ c[d] = a[d] + r % 6; r /= 6; } s.sparts.push_back(mortonIndex<Dim>(c, H - 1)); }
+                   const long pick[6] = {1000, 7, 100, 27, 64, 1}; s.bs = pick[ex % 6]; }     // first session: one group per level, every list delivered in one call
+            const long n0 = (long)s.sparts.size();
+            for(long k = 0; k < n0 / 8; ++k) s.sparts.push_back(s.sparts[rng() % (unsigned long)n0]);       // some leaves hold several particles
+            s.tparts = s.sparts;
+        }
         s.key = "rec" + std::to_string(ex);
         Replayer R(rep, s); R.makeInputs(s.sparts, R.spos, R.sSpec, R.sInputOf);
         if(s.mode) R.makeInputs(s.tparts, R.tpos, R.tSpec, R.tInputOf); else { R.tpos = R.spos; R.tSpec = R.sSpec; R.tInputOf = R.sInputOf; }
